@@ -60,7 +60,8 @@ def probe_text(p, anyacct, more=False):
     if k == "payee":
         out = [(HEAD + "2024-03-01 " + q, 2, 11 + u(q), "header")]
         if more:
-            for pre, lay in (("2024-03-01 * ", "header-status"), ("2024-03-01 (123) ", "header-code"), ("2024-03-01=2024-03-02 ! (x) ", "header-date2-status-code")):
+            for pre, lay in (("2024-03-01 * ", "header-status"), ("2024-03-01 (123) ", "header-code"), ("2024-03-01=2024-03-02 ! (x) ", "header-date2-status-code"),
+                             ("2024-03-01 (№ЖЖЖЖЖЖЖЖ😀) ", "header-code-nonascii")):
                 out.append((HEAD + pre + q, 2, u(pre) + u(q), lay))
         if q == "":
             # the cursor still inside (or right after) the date: whatever is offered there may only be INSERTED at the cursor
@@ -74,6 +75,10 @@ def probe_text(p, anyacct, more=False):
         # the amount in front is written in a commodity the workspace already has (a new one would itself become a name)
         import re as _re
         have = [r["name"] for r in p["counts"] if _re.match(r"^[A-Za-z]+$", r["name"])]
+        if more:
+            # many bytes, few UTF-16 units in front of the fragment: byte offsets and columns must not be mixed up
+            pre3 = "    Расходы:Продукты😀  10 "
+            out.append((HEAD + "2024-03-01\n" + pre3 + q, 3, u(pre3) + u(q), "after-amount-nonascii-account"))
         if more and have:
             w = sorted(have)[0]
             for pre2, lay in (("    " + anyacct + "  10 " + w + " @ 2 ", "in-cost"), ("    " + anyacct + "  10 " + w + " @@ 20 ", "in-total-cost"), ("    " + anyacct + "  10 " + w + " = 50 ", "in-assertion")):
